@@ -466,6 +466,8 @@ func init() {
 				g.tmpl = (*genCtx).tmplCrossSiblingCycle
 			case 1:
 				g.tmpl = (*genCtx).tmplDescendantCycle
+			case 2:
+				g.tmpl = (*genCtx).tmplSiblingRejections
 			}
 		}, Mix{Scope: 3, Provide: 12, Decorate: 1, Invoke: 7, VisStr: 0}),
 		Eval: evalSimple("C05", func(c *Checked) bool {
@@ -501,8 +503,11 @@ func init() {
 			g.ft.NT = g.r.Range(2, 5)
 			g.ft.Decorators = true
 			g.ft.PAvail = 0.9
-			if g.r.Intn(5) == 0 {
+			switch g.r.Intn(10) {
+			case 0, 1:
 				g.tmpl = (*genCtx).tmplDescendantCycle
+			case 2:
+				g.tmpl = (*genCtx).tmplSiblingRejections
 			}
 		}, Mix{Scope: 3, Provide: 10, Decorate: 5, Invoke: 8, VisStr: 1}),
 		Eval:       evalSimple("C06", hasProbe("reuse_after_reject")),
